@@ -38,7 +38,9 @@ def directed(rng: random.Random) -> dict:
     body.append({"k": "assign", "n": "cnA", "e": E(cval) if cval >= 0 else E("-", -cval)})
     kind = rng.choice(["if_const", "if_undef", "for_bounds", "if_loopvar", "nested", "macro_if", "macro_for", "for_label", "else_chain",
                        "if_defines", "if_defines_label", "macro_if_defines", "for_shadow", "for_after", "macro_defined_in_if",
-                       "macro_defined_in_empty_loop", "loop_state_per_iteration", "scope_in_loop", "loop_forward_label_shadow"])
+                       "macro_defined_in_empty_loop", "loop_state_per_iteration", "scope_in_loop", "loop_forward_label_shadow",
+                       "taken_branch_fails", "table_in_loop"])
+    tables: dict = {}
     db = lambda *es: {"k": "data", "d": "db", "es": [e if isinstance(e, list) else E(e) for e in es]}  # noqa: E731
     if kind == "if_const":
         st = {"k": "if", "c": rng.choice([E("cnA"), E("cnA", "&", 1), E("cnA", "+", 1), E("cnA", "-", cval)]), "t": [db(1)], "e": [db(2)] if rng.random() < 0.6 else None}
@@ -126,13 +128,40 @@ def directed(rng: random.Random) -> dict:
                  {"k": "call", "n": "macD", "as": [E(rng.choice([1, 2, 3]))]},
                  {"k": "block", "b": [{"k": "for", "v": "itE", "a": E(0), "b": E(2), "body": [ref(), {"k": "data", "d": "dw", "es": [E("done")]}]}, db(0xEA), {"k": "label", "n": "done"}]},
                  ref()]
+    elif kind == "taken_branch_fails":
+        # the selected branch cannot be expanded (undefined macro, a value that is not known yet): the program fails exactly like the
+        # branch written out by hand; nothing makes it fall back to the other branch
+        bad = rng.choice([[{"k": "call", "n": "nomac_q9", "as": [E(1)]}], [{"k": "assign", "n": "cnB", "e": E("later_q9", "+", 1)}, db(E("cnB"))],
+                          [{"k": "for", "v": "itQ", "a": E(0), "b": E("later_q9"), "body": [db(1)]}], [{"k": "splice", "n": "nothing_q9"}],
+                          [db(1), {"k": "block", "b": [{"k": "call", "n": "nomac_q9", "as": []}]}], [{"k": "if", "c": E(1), "t": [{"k": "call", "n": "nomac_q9", "as": [E(2)]}]}]])
+        cond = rng.choice([E(1), E("cnA", "-", cval, "+", 1), E(5)])
+        st = {"k": "if", "c": cond, "t": bad, "e": [db(0xEE)] if rng.random() < 0.7 else None}
+        if rng.random() < 0.3:
+            st = {"k": "if", "c": E(0), "t": [db(0xDD)], "e": bad}
+        body += [db(0xAA), st, db(0xBB), {"k": "label", "n": "later_q9"}, db(0xCC)]
+    elif kind == "table_in_loop":
+        # a table loaded inside one iteration belongs to that iteration, exactly as in the block written out by hand
+        tables = {"en.tbl": [["41", "A"], ["42", "B"]], "jp.tbl": [["a1", "A"], ["b1", "B"]]}
+        txt = lambda t: {"k": "text", "t": t}  # noqa: E731
+        inner = [{"k": "if", "c": E("lang"), "t": [{"k": "table", "f": "jp.tbl"}]}, txt("AB")]
+        if rng.random() < 0.5:
+            inner = [txt("BA"), {"k": "table", "f": "jp.tbl"}, txt("AB")]
+        wrap = rng.choice(["plain", "macro", "block"])
+        loop = {"k": "for", "v": "lang", "a": E(0), "b": E(2), "body": inner}
+        if wrap == "macro":
+            mid = [{"k": "macro", "n": "langs", "ps": [], "b": [loop, txt("BA")]}, {"k": "call", "n": "langs", "as": []}]
+        elif wrap == "block":
+            mid = [{"k": "block", "b": [loop, txt("AB")]}]
+        else:
+            mid = [loop]
+        body += [{"k": "table", "f": "en.tbl"}, txt("AB")] + mid + [txt("BA")]
     elif kind == "for_after":
         body += [{"k": "for", "v": "itJ", "a": E(1), "b": E(3), "body": [db(E("itJ"))]},
                  {"k": "if", "c": E("itJ"), "t": [db(0x01)], "e": [db(0x02)]}]
     else:
         body += [{"k": "if", "c": E(0), "t": [db(1)], "e": [{"k": "if", "c": E("cnA"), "t": [db(2)], "e": [db(3)]}]},
                  {"k": "if", "c": E("cnA"), "t": [], "e": [db(4)]}]
-    return {"prog": body, "files": {}, "tables": {}, "rom": "low", "family": "directed:" + kind}
+    return {"prog": body, "files": {}, "tables": tables, "rom": "low", "family": "directed:" + kind}
 
 
 def uses_loop_variable_at_expansion(prog: list) -> bool:
